@@ -213,6 +213,13 @@ def condense_count(ctx, dev) -> None:
         if n_arg is None:
             continue
         counters |= _root_names(fv, n_arg, cs.node)
+    unbound = [cs for cs in cond if (fv.bind_args(cs) or {}).get("n") is None]
+    for cs in unbound:
+        recv = cs.call.func.value.id if isinstance(cs.call.func, ast.Attribute) and isinstance(cs.call.func.value, ast.Name) else "?"
+        ctx.rep.refuted(rule, f"{cb}/condense({recv})/count", "condense_log is called without the number of entries this operation logged: how many entries are merged then depends on "
+                        "what the history happens to contain, so entries of earlier operations can be swallowed (or the operation's own entries left uncondensed)", where=f.where(cs.call))
+    if unbound:
+        return
     if len(counters) != 1:
         ctx.rep.inconclusive(rule, cb + "/counter", f"cannot identify the step counter ({sorted(counters)})", where=f.where())
         return
